@@ -28,6 +28,8 @@ type ClaimsDesc struct {
 	InstID    *HexBytes `json:"inst,omitempty"`
 	VSI       *string   `json:"vsi,omitempty"`
 	Extra     *int64    `json:"extra,omitempty"`
+	Wide      []int     `json:"wide,omitempty"` // xw: which of the 20 extra claims are present
+	XSw       bool      `json:"xsw,omitempty"`  // components are of the sim type whose encoder can fail
 	// Defects lists what was deliberately broken (informational).
 	Defects []string `json:"defects,omitempty"`
 }
@@ -55,6 +57,8 @@ func profileNameOf(prof string) string {
 		return xp1Name
 	case "xp2":
 		return xp2Name
+	case "xw":
+		return xwName
 	}
 	return ""
 }
@@ -173,6 +177,15 @@ func genValidClaims(r *Rng, prof string) ClaimsDesc {
 			x := int64(r.Intn(1 << 30))
 			d.Extra = &x
 		}
+	}
+	if prof == "xw" {
+		// enough extra claims for the total to land around the 23/24 header boundary
+		k := r.Range(10, 20)
+		perm := r.Perm(20)
+		d.Wide = append([]int{}, perm[:k]...)
+	}
+	if prof != "p1" && prof != "xp1" && r.Chance(1, 6) {
+		d.XSw = true
 	}
 	return d
 }
@@ -403,6 +416,13 @@ func buildContainer(d *ClaimsDesc) (psatoken.ISwComponents, error) {
 	if d.SwNil && len(d.Sw) == 0 {
 		return nil, nil
 	}
+	if d.XSw && len(d.Sw) > 0 {
+		xc := &psatoken.SwComponents[*XSwComponent]{}
+		if err := xc.UnmarshalCBOR(encodeSwList(d.Sw)); err != nil {
+			return nil, fmt.Errorf("container decode: %w", err)
+		}
+		return xc, nil
+	}
 	cont := &psatoken.SwComponents[*psatoken.SwComponent]{}
 	if len(d.Sw) == 0 {
 		return cont, nil
@@ -557,6 +577,20 @@ func (d *ClaimsDesc) buildRaw() (psatoken.IClaims, error) {
 			x.Extra = &v
 		}
 		return x, nil
+	case "xw":
+		b, err := buildP2(d, xwName)
+		if err != nil {
+			return nil, err
+		}
+		x := &XWClaims{P2Claims: *b}
+		ws := x.wide()
+		for _, i := range d.Wide {
+			if i >= 0 && i < len(ws) {
+				v := int64(1000 + i)
+				*ws[i] = &v
+			}
+		}
+		return x, nil
 	}
 	return nil, errUnbuildable
 }
@@ -610,6 +644,15 @@ func (d *ClaimsDesc) buildViaSetters() (out psatoken.IClaims, oerr error) {
 			return nil, err
 		}
 	}
+	if xw, ok := c.(*XWClaims); ok {
+		ws := xw.wide()
+		for _, i := range d.Wide {
+			if i >= 0 && i < len(ws) {
+				v := int64(1000 + i)
+				*ws[i] = &v
+			}
+		}
+	}
 	if d.Extra != nil {
 		switch x := c.(type) {
 		case *XP1Claims:
@@ -643,7 +686,7 @@ func (d *ClaimsDesc) claimsShape() string {
 	if d.CertRef != nil {
 		s += fmt.Sprintf("c%d", len(*d.CertRef))
 	}
-	s += fmt.Sprintf("w%d", len(d.Sw))
+	s += fmt.Sprintf("w%dx%d", len(d.Sw), len(d.Wide))
 	for _, c := range d.Sw {
 		s += b(c.MType != nil) + b(c.Version != nil) + b(c.MDesc != nil)
 		if c.MVal != nil {
